@@ -44,7 +44,11 @@ RULE = ("random bytes (1..255) and str drawn from ASCII / Latin-1 / BMP / astral
         "length 0..10; types char, signed char, unsigned char, wchar_t, char16_t, char32_t; operations ffi.new('T[]'), "
         "ffi.new('T[n]') with n around the unit count, item / field / struct-initialiser assignment over random non-zero prior "
         "contents with neighbours observed, ffi.string (array or pointer+offset, with/without maxlen) and ffi.unpack over random "
-        "units with zeros; a case is non-trivial when the string is non-empty; distinct = distinct (type, op, units, parameters)")
+        "units with zeros; every run first covers each (route {field, item, init-field, new_fixed} x unit width x fit {exact, shorter-by-1, "
+        "shorter-by-more, too-long-by-1} x string class {bmp, astral at start/middle/end, several astral, lone surrogates | ascii, "
+        "high bytes}) cell 3 times plus ffi.new('T[]') per (width x class), neighbour memory observed after every store (struct "
+        "fields before/after, rows before/after, a 0xA5-filled arena around ffi.new allocations), counts recorded as cell:* in the "
+        "distribution; a case is non-trivial when the string is non-empty; distinct = distinct (type, op, units, parameters)")
 ASSUMPTIONS = ["little-endian units in ffi.buffer", "sizeof(wchar_t) in {2,4}; the width reported by ffi.sizeof is used"]
 
 CLASSES = {
@@ -338,7 +342,7 @@ def gen_grid(rng, sizes):
 class Runner:
     def __init__(self):
         import cffi
-        self.ffi = cffi.FFI()
+        self.ffi = ffi = cffi.FFI()
         self.sizes = {T: self.ffi.sizeof(T) for T in TYPES}
         for T, s in self.sizes.items():
             if s not in (1, 2, 4):
